@@ -112,6 +112,9 @@ impl<T> Drop for Sender<T> {
         };
         s.senders -= 1;
         if s.senders == 0 {
+            if let Some(r) = try_rt() {
+                r.touch(s.id);
+            }
             s.close_token = super::hb_release();
             let w = std::mem::take(&mut s.wait_recv);
             drop(s);
@@ -127,6 +130,9 @@ impl<T> Drop for Receiver<T> {
         };
         s.receivers -= 1;
         if s.receivers == 0 {
+            if let Some(r) = try_rt() {
+                r.touch(s.id);
+            }
             let w = std::mem::take(&mut s.wait_send);
             drop(s);
             wake(w);
